@@ -928,6 +928,17 @@ pub fn run_emfile_idle(ctx: &mut Ctx) {
     }
 }
 
+/// c01k: clients whose request could not be read (malformed head) and who then neither close nor half-close, some of them
+/// going on sending: the connection task ends once it has answered — the slots come back without the clients' help.
+pub fn run_c01k(ctx: &mut Ctx) {
+    for (i, (n, kinds)) in [(1usize, "MMg"), (2, "MMMgg"), (1, "MgM"), (3, "MMMMggg")].iter().enumerate() {
+        if ctx.mine(i as u64) {
+            let delays: Vec<String> = (0..kinds.len()).map(|k| (k * 5).to_string()).collect();
+            case_limit(ctx, &n.to_string(), kinds, &delays.join(","));
+        }
+    }
+}
+
 /// c13w: only the "response being written" phase of c13 (a 6 MiB response to a client that is not reading yet, the permit
 /// revoked meanwhile): the response must arrive complete.  Shared with C06.
 pub fn run_c13w(ctx: &mut Ctx) {
